@@ -143,3 +143,15 @@ Section Wedge.
     replace (r * rsum (map snd vox) / rsum (map snd vox)) with r by (field; exact Hn). reflexivity.
   Qed.
 End Wedge.
+
+(* zero widths / resels map to zero (pos_recipr) *)
+Lemma pos_recipr_zero : pos_recipr 0 = 0.
+Proof. unfold pos_recipr. destruct (Rlt_dec 0 0) as [H|_]; [lra|reflexivity]. Qed.
+
+Lemma fwhm2resel_zero D w : (0 < D)%nat -> fwhm2resel D w 0 = 0.
+Proof.
+  intros HD. unfold fwhm2resel. unfold Rdiv. rewrite Rmult_0_l. rewrite pow_i by exact HD. apply pos_recipr_zero.
+Qed.
+
+Lemma resel2fwhm_zero root w : root 0 = 0 -> resel2fwhm root w 0 = 0.
+Proof. intros H. unfold resel2fwhm. rewrite H, pos_recipr_zero. ring. Qed.
